@@ -90,6 +90,56 @@ def verify(functions: list[str], budgets=(8, 30, 60), verbose=False, use_cache=T
     return obs, info
 
 
+def _canary_one(job):
+    from .solver import _z3_check
+    fn, smt2 = job
+    r, detail = _z3_check(smt2, 4000, 0, False)
+    return fn, r, detail
+
+
+def _canaries(vcs):
+    """Vacuity guard: for every function (instance) the hypotheses of its last postcondition obligation - the WF axioms, the
+    contract's facts and lemmas, a full path condition - must not be refutable.  `unsat` here means the proof context is
+    contradictory and every obligation of the function would be discharged vacuously: reported as an engine error."""
+    from concurrent.futures import ProcessPoolExecutor
+    import z3
+    from .solver import vc_to_smt2
+    # candidates: the contexts of up to 8 postcondition obligations per function (different paths); a single one may
+    # belong to an infeasible path (its obligation is then trivially true, which is fine) - what must not happen is that
+    # ALL contexts of a function are contradictory
+    import re as _re
+    cands = {}
+    seen_paths = {}
+    for vc in vcs:
+        if not ('::post:' in vc.id or '::frame' in vc.id):
+            continue
+        m = _re.search(r'#(\d+)$', vc.id)
+        path = m.group(1) if m else '0'
+        sp = seen_paths.setdefault(vc.function, set())
+        if path in sp or len(sp) >= 12:
+            continue                       # one context per path, at most 12 paths per function
+        sp.add(path)
+        cands.setdefault(vc.function, []).append(vc)
+    for vc in vcs:
+        if not cands.get(vc.function):
+            cands[vc.function] = [vc]
+    jobs = [(f'{fn}#{k}', vc_to_smt2(vc.hyps, z3.BoolVal(False))) for fn, lst in cands.items() for k, vc in enumerate(lst)]
+    out = []
+    if not jobs:
+        return out
+    verdicts = {}
+    with ProcessPoolExecutor(max_workers=14) as ex:
+        for key, r, detail in ex.map(_canary_one, jobs, chunksize=1):
+            verdicts.setdefault(key.rsplit('#', 1)[0], []).append(r)
+    for fn, rs in verdicts.items():
+        bad = all(r == 'unsat' for r in rs)
+        out.append(Obligation(id=f'{fn}::X::hypotheses-are-not-contradictory', function=fn, cls='X',
+                              status='error' if bad else 'discharged', backend=f"canary(z3:{'/'.join(sorted(set(rs)))})",
+                              detail='every proof context of this function is contradictory: its obligations would be '
+                                     'discharged vacuously' if bad else f'{sum(r != "unsat" for r in rs)} of {len(rs)} sampled contexts not refutable'))
+    return out
+
+
 def _verify(functions: list[str], budgets=(8, 30, 60), verbose=False):
     prog = load_program()
     contracts = load_contracts()
@@ -132,6 +182,7 @@ def _verify(functions: list[str], budgets=(8, 30, 60), verbose=False):
             covers[fn] = normal
     t_gen = time.time() - t0
     obs = discharge(all_vcs, budgets)
+    obs += _canaries(all_vcs)
     # cover obligations: every function must have a reachable normal exit (non-vacuous precondition)
     for fn, normal in covers.items():
         obs.append(Obligation(id=f'{fn}::COVER::normal-exit-reachable', function=fn, cls='COVER',
